@@ -91,19 +91,30 @@ def optFlatJ : Option Flat → Json
   | none => Json.str "KeyError"
   | some s => flatJ s
 
-/-- what is observed of a model object -/
-def snapModel (t : RT) (res : Json) : Json :=
-  obj [("cls", topJ (top t)), ("tree", treeJ t), ("sem", optFlatJ (render traceBackend t)),
-       ("str", strToJson (toStr t)), ("len", nat (len t)), ("res", res)]
+/-
+Observables travel as compact JSON *texts* (one string per value) so that the harness can compare
+them without building object trees: `t` = the normal-form tree (model only), `v` = class, string
+of pairs, `str`, `len`.
+-/
+def packed (j : Json) : Json := Json.str j.compress
+
+/-- class, rendering with the tracing backend, `str`, `len` of a model object -/
+def obsModel (t : RT) : Json :=
+  packed (obj [("cls", topJ (top t)), ("sem", optFlatJ (render traceBackend t)),
+               ("str", strToJson (toStr t)), ("len", nat (len t))])
 
 /-- the same observables of an abstract value -/
-def snapSpec (a : Abs) (res : Json) : Json :=
-  obj [("cls", topJ a.top), ("sem", flatJ a.atoms), ("str", strToJson (Flat.toStr a.atoms)),
-       ("len", nat a.atoms.length), ("res", res)]
+def obsSpec (a : Abs) : Json :=
+  packed (obj [("cls", topJ a.top), ("sem", flatJ a.atoms), ("str", strToJson (Flat.toStr a.atoms)),
+               ("len", nat a.atoms.length)])
+
+def snapModel (t : RT) (res : Json) : Json :=
+  obj [("t", packed (treeJ t)), ("v", obsModel t), ("r", res)]
+def snapSpec (a : Abs) (res : Json) : Json := obj [("v", obsSpec a), ("r", res)]
 
 def partModel (t : RT) : Json :=
-  obj [("cls", topJ (top t)), ("tree", treeJ t), ("sem", optFlatJ (render traceBackend t))]
-def partSpec (a : Abs) : Json := obj [("cls", topJ a.top), ("sem", flatJ a.atoms)]
+  arr [packed (treeJ t), packed (obj [("cls", topJ (top t)), ("sem", optFlatJ (render traceBackend t))])]
+def partSpec (a : Abs) : Json := packed (obj [("cls", topJ a.top), ("sem", flatJ a.atoms)])
 
 def optInt (j : Json) (k : String) : Except String (Option Int) := do
   match j.getObjVal? k with
@@ -178,13 +189,14 @@ def stepBoth (t : RT) (a : Abs) (j : Json) : Except String (RT × Json × Abs ×
     let parts := split sep t keep
     let rejoinM : Json := match sep with
       | .ws => Json.null
-      | .lit c cs => optFlatJ (render traceBackend (join (.str (c :: cs)) parts))
+      | .lit c cs => packed (optFlatJ (render traceBackend (join (.str (c :: cs)) parts)))
     let resM := obj [("parts", arr (parts.map partModel)), ("rejoin", rejoinM)]
     let specified := splitSpecified sep kd
     let partsS := Abs.split sep kd a
     let rejoinS : Json := match sep with
-      | .ws => Json.null
-      | .lit _ _ => if kd then flatJ a.atoms else Json.null
+      | .lit c [] =>
+        if kd then packed (flatJ (Abs.join ⟨.string, [(.ch c, [])]⟩ partsS).atoms) else Json.null
+      | _ => Json.null
     let resS := if specified then obj [("parts", arr (partsS.map partSpec)), ("rejoin", rejoinS)]
                 else obj [("rejoin", rejoinS)]
     match pick with
@@ -234,12 +246,9 @@ def intRange (lo hi : Int) : List Int := (List.range (hi - lo + 1).toNat).map fu
 /-- the bounds tried by `slicetab`: `None` first, then `lo … hi` -/
 def boundList (lo hi : Int) : List (Option Int) := none :: (intRange lo hi).map some
 
-def valModel (t : RT) : Json :=
-  obj [("cls", topJ (top t)), ("tree", treeJ t), ("sem", optFlatJ (render traceBackend t)),
-       ("str", strToJson (toStr t)), ("len", nat (len t))]
-def valSpec (a : Abs) : Json :=
-  obj [("cls", topJ a.top), ("sem", flatJ a.atoms), ("str", strToJson (Flat.toStr a.atoms)),
-       ("len", nat a.atoms.length)]
+def valModel (t : RT) : Json := arr [packed (treeJ t), obsModel t]
+def valSpec (a : Abs) : Json := obsSpec a
+def errModel (e : Err) : Json := arr [Json.str "", errJ e]
 
 /-- queries that produce whole tables: every slice / every index in a range -/
 def tableOps (t : RT) (a : Abs) (j : Json) (o : String) : Except String (Option (Json × Json)) := do
@@ -255,7 +264,7 @@ def tableOps (t : RT) (a : Abs) (j : Json) (o : String) : Except String (Option 
     let is := intRange lo hi
     pure (some (tableJ (is.map fun i => match getIndex t i with
                   | .ok r => valModel r
-                  | .error e => errJ e),
+                  | .error e => errModel e),
                 tableJ (is.map fun i => match Abs.index a i with
                   | .ok r => valSpec r
                   | .error e => errJ e)))
@@ -276,9 +285,9 @@ def isQuery (j : Json) : Bool :=
   | _ => false
 
 def snapM (j : Json) (t : RT) (res : Json) : Json :=
-  if isQuery j then obj [("res", res)] else snapModel t res
+  if isQuery j then obj [("r", res)] else snapModel t res
 def snapS (j : Json) (a : Abs) (res : Json) : Json :=
-  if isQuery j then obj [("res", res)] else snapSpec a res
+  if isQuery j then obj [("r", res)] else snapSpec a res
 
 def runBoth (t : RT) (a : Abs) : List Json → Except String (List Json × List Json)
   | [] => pure ([], [])
